@@ -280,7 +280,13 @@ EmptyMesh(topo) == MkMesh(topo, <<>>, <<>>, <<>>)
 RECURSIVE RepeatAcc(_, _, _)
 RepeatAcc(acc, m, trss) ==
     IF trss = <<>> THEN acc ELSE RepeatAcc(MeshAppend(acc, ApplyTRS(m, Head(trss))), m, Tail(trss))
-Repeat(m, trss) == IF ~HasAttr(m, 3, 1) THEN FailMesh ELSE RepeatAcc(EmptyMesh(m.topo), m, trss)
+\* No transforms, or nothing to copy (no primitive and no position to transform): the empty mesh of the
+\* topology (repository fix 74c0bb9: "any number of copies of nothing is nothing"; before it the call
+\* panicked).  Indices without a position attribute cannot be transformed: the call must report failure.
+Repeat(m, trss) ==
+    IF trss = <<>> \/ (m.idx = <<>> /\ ~HasAttr(m, 3, 1)) THEN EmptyMesh(m.topo)
+    ELSE IF ~HasAttr(m, 3, 1) THEN FailMesh
+    ELSE RepeatAcc(EmptyMesh(m.topo), m, trss)
 
 (***************************************************************************)
 (* Attribute-transforming operations whose results leave the lattice       *)
